@@ -156,7 +156,12 @@ def r2(ctx):
         ok = isinstance(star, DictV) and star.layers
         why = ''
         if ok:
-            layers = [l for l in star.layers if not (isinstance(l, dict) and not l)]
+            def from_caller(l):
+                return isinstance(l, dict) and all(
+                    isinstance(v, App) and v.name == 'lookup' and len(v.args[0].items) == 1 and
+                    isinstance(v.args[0].items[0], Obj) and v.args[0].items[0].path == 'caller_kwargs'
+                    for v in l.values())
+            layers = [l for l in star.layers if not (isinstance(l, dict) and (not l or from_caller(l)))]
             first_ok = isinstance(layers[0], App) and layers[0].name == 'define_mpl_kwargs' and \
                 isinstance(layers[0].args[0], Obj) and layers[0].args[0].path == 'self.visual'
             last_ok = isinstance(layers[-1], Obj) and layers[-1].path == 'caller_kwargs'
